@@ -742,6 +742,11 @@ func (ex *Exec) fireSite(cl *Clause, sel string, in ssa.Instruction) {
 func (ex *Exec) siteMatches(sel string, in ssa.Instruction) bool {
 	kind, rest, _ := strings.Cut(sel, " ")
 	name, ord, _ := strings.Cut(rest, "#")
+	if m := ex.eng.Renames[funcKey(ex.fn)]; m != nil && kind == "store" {
+		if nn, ok := m[name]; ok {
+			name = nn
+		}
+	}
 	match := func(i ssa.Instruction) bool {
 		switch kind {
 		case "call":
